@@ -69,7 +69,6 @@ run benign4-C17 C17
 run benign4-C18 C18 C07 C08
 run benign4-C19 C19
 run benign4-C20 C20
-echo ALLDONE
 run benign5-C01 C01 C02 C03 C15
 run benign5-C02 C02 C03 C01 C15
 run benign5-C03 C03 C01 C02 C15
@@ -90,3 +89,4 @@ run benign5-C17 C17
 run benign5-C18 C18 C07 C08
 run benign5-C19 C19
 run benign5-C20 C20
+echo ALLDONE
